@@ -632,7 +632,7 @@ func (e *Exec) valueEq(a, b Value, t types.Type) *smt.Term {
 	case Opaque:
 		y := b.(Opaque)
 		switch x.Kind {
-		case "time":
+		case "time", "timelocal":
 			return smt.Eq(x.Data.(*smt.Term), y.Data.(*smt.Term))
 		case "error":
 			return smt.BoolConst(x.Data == y.Data)
